@@ -30,3 +30,15 @@ package opchild
 //@   ensures err == nil ==> forall k bytes :: Validators[k] != None ==> val(Validators[k]).ConsPower > 0 && LastValidatorPowers[k] == Some(val(Validators[k]).ConsPower)   // C13: state_has_only_bonded_validators_after_the_block
 //@   ensures err == nil ==> forall u int :: 0 <= u && u < len(ret0) ==> ret0[u].Power >= 0                                                // C13: no_negative_power_in_batch
 //@   assigns Validators, ValidatorsByConsAddr, LastValidatorPowers, Params
+
+// ---- genesis export of the consensus validator list (C16): exactly the bonded set, one entry per bonded validator ----
+
+//@ func WriteValidators
+//@   requires forall k bytes :: LastValidatorPowers[k] != None ==> Validators[k] != None                                        // INV_VAL K2
+//@   ensures err == nil ==> len(vals) == card(LastValidatorPowers)                                                              // C16,C13: one_genesis_validator_per_bonded_validator
+//@   ensures err == nil ==> forall t int :: 0 <= t && t < len(vals) ==> (exists k bytes :: LastValidatorPowers[k] != None && Validators[k] != None
+//@        && vals[t].Power == val(Validators[k]).ConsPower && vals[t].Name == val(Validators[k]).Moniker)                        // C16,C13: genesis_validators_are_the_bonded_ones_with_their_powers
+//@   walk 0 invariant len(vals) == $i
+//@   walk 0 invariant forall t int :: 0 <= t && t < $i ==> LastValidatorPowers[$key(t)] != None && Validators[$key(t)] != None
+//@        && vals[t].Power == val(Validators[$key(t)]).ConsPower && vals[t].Name == val(Validators[$key(t)]).Moniker
+//@   assigns \nothing
